@@ -17,7 +17,7 @@ import ast
 import os
 from pathlib import Path
 
-from .gen_c04 import _calls, _func, _handler_names, _has, _innermost, _trys
+from .gen_c04 import _calls, _func, _handler, _handler_names, _has, _innermost, _trys
 
 REPO = Path(os.environ.get("VERIF_REPO", "/repo"))
 PROPS = ["C05"]
@@ -115,6 +115,22 @@ def emit() -> dict[str, str]:
     val = _innermost([t for t in _trys(s1) if "_deserialize_params" in _calls(t.body)])
     validation = [c for h in (val[0].handlers if val else []) if "_write_error_stream" in _calls(h.body) and isinstance(h.body[-1], ast.Return)
                   for c in _names(h)]
+    # refusals of a stream call: is the error stream written BEFORE `_drain_refused_stream_input` waits for the client's input
+    # stream?  (the peer of a refused call sends that stream only after it has read the reply)
+    def reply_first(body: list[ast.stmt]) -> bool:
+        c = _calls(body)
+        if "_write_error_stream" not in c:
+            return False
+        return "self._drain_refused_stream_input" not in c or c.index("_write_error_stream") < c.index("self._drain_refused_stream_input")
+
+    vh = [h for h in (vg[0].handlers if vg else []) if "ProtocolVersionError" in _names(h)]
+    version_first = len(vh) == 1 and reply_first(vh[0].body)
+    valh = [h for h in (val[0].handlers if val else []) if "Exception_" in _names(h)]
+    validation_first = len(valh) == 1 and reply_first(valh[0].body)
+    sst = _func(srv, "_serve_stream")
+    it_ = [t for t in _trys(sst) if any(isinstance(x, (ast.Assign, ast.AnnAssign)) and "getattr(self._impl, info.name)" in ast.unparse(x) for x in t.body)]
+    ih = _handler(it_[0], "Exception") if len(it_) == 1 else None
+    init_first = ih is not None and reply_first(ih.body)
     su = _func(srv, "_serve_unary")
     mc = _innermost([t for t in _trys(su) if any("getattr(self._impl, info.name)" in ast.unparse(s) for s in t.body)])
     method_call = [c for h in (mc[0].handlers if mc else []) if "_write_error_batch" in _calls(h.body) for c in _names(h)]
@@ -217,6 +233,12 @@ def readRequestTry : List (List Exc × Bool) := [{", ".join(f"({_lst(h)}, {str(r
 def versionGate : List Exc := {_lst(version_gate)}
 def validation : List Exc := {_lst(validation)}
 def methodCall : List Exc := {_lst(method_call)}
+
+/-- refusals of a stream call (version gate / parameter validation / failed init): the error stream is written before the
+server waits, in `_drain_refused_stream_input`, for the input stream of a header-less stream's client -/
+def versionReplyFirst : Bool := {str(bool(version_first)).lower()}
+def validationReplyFirst : Bool := {str(bool(validation_first)).lower()}
+def initReplyFirst : Bool := {str(bool(init_first)).lower()}
 
 /-- `_maybe_attach_shm`: classes answered with `return None` around the name/size decode and around `ShmSegment.attach` -/
 def attachMdDecode : List Exc := {_lst(md_dec)}
